@@ -234,7 +234,9 @@ def run_unit(i, tier):
             info = dict(info0, n=n)
             note_case(info)
             try:
-                vals = list(u.generate_many(copy.deepcopy(raw) if n != 1 else parsed, n))
+                import itertools
+
+                vals = list(itertools.islice(u.generate_many(copy.deepcopy(raw) if n != 1 else parsed, n), n + 3))
             except choice.Horizon as e:
                 res.add(Violation("c20.horizon", "generation-does-not-terminate", f"{e} | {short(info, 300)}", dict(info, answers=list(ch.choices))))
                 return
